@@ -16,6 +16,9 @@ import Mathlib.Data.List.Forall2
 namespace GoblVerif
 open GoblVerif.Spec GoblVerif.Calc
 namespace Calc
+/- everything of this file lives in `GoblVerif.Calc.Err` (the names are generic; other `Calc` proof
+   files share the parent namespace) -/
+namespace Err
 
 /-! ## generic list lemmas -/
 
@@ -58,7 +61,7 @@ def adjAmt (c : ℕ) (sum : Amount) (d : LineAdj) : Amount :=
 def chAmt (c : ℕ) (qty sum : Amount) (d : LineAdj) : Amount :=
   (adjUp c (adjRate exactOps qty (adjPct exactOps .precise c sum d))).amount
 
-theorem adjPct_rate (r : Rule) (c : ℕ) (sum : Amount) (d : LineAdj) :
+theorem adjPct_rate_eq (r : Rule) (c : ℕ) (sum : Amount) (d : LineAdj) :
     (adjPct exactOps r c sum d).rate = d.rate := by
   unfold adjPct
   split
@@ -70,7 +73,7 @@ theorem adjPct_rate (r : Rule) (c : ℕ) (sum : Amount) (d : LineAdj) :
 theorem chAmt_eq (c : ℕ) (qty sum : Amount) (d : LineAdj) (h : d.rate = none) :
     chAmt c qty sum d = adjAmt c sum d := by
   unfold chAmt adjAmt adjRate
-  rw [adjPct_rate, h]
+  rw [adjPct_rate_eq, h]
 
 /-- one row: never finer than the line sum, and within |sum − s| + ½ulp of the exact amount -/
 theorem adjAmt_ok (c : ℕ) (sum : Amount) (d : LineAdj) (hd : AdjOk c d) (hs : c + 2 ≤ sum.exp)
@@ -328,7 +331,7 @@ def total2Of (sum : Amount) (dsum csum : Option Amount) : Amount :=
   | some x => add exactOps (match dsum with | some x => sub exactOps sum x | none => sum) x
   | none => (match dsum with | some x => sub exactOps sum x | none => sum)
 
-theorem pre_ok (d : Doc) (p : Pre) (h : pre exactOps d = .ok p) :
+theorem pre_unpack (d : Doc) (p : Pre) (h : pre exactOps d = .ok p) :
     ∃ lines, calcLines exactOps d.cur d.c d.rates d.rule d.lines = .ok lines ∧ p.lines = lines ∧
       p.sum = lineSum exactOps d.c lines ∧
       p.discounts = d.discounts.map (docAdj exactOps d.rule d.c (lineSum exactOps d.c lines)) ∧
@@ -594,7 +597,7 @@ def totalW (d : Doc) : ℕ :=
 theorem pre_sum_spec (d : Doc) (p : Pre) (hr : d.rule = .precise) (hlines : ∀ l ∈ d.lines, AdjLine d.c l)
     (h : pre exactOps d = .ok p) :
     |p.sum.toRat - (Spec.C01.exactQ d).sum| ≤ (sumW d.lines : ℚ) * halfUlp (d.c + 2) := by
-  obtain ⟨lines, hl, hpl, hsum, _⟩ := pre_ok d p h
+  obtain ⟨lines, hl, hpl, hsum, _⟩ := pre_unpack d p h
   rw [hr] at hl
   subst hpl
   have hrel := calcLines_rel d.cur d.c d.rates d.lines p.lines hlines hl
@@ -614,7 +617,7 @@ theorem pre_spec (d : Doc) (p : Pre) (hd : DocA d) (h : pre exactOps d = .ok p) 
     p.total2.exp = p.sum.exp ∧
     |p.total2.toRat - ((Spec.C01.exactQ d).sum - (Spec.C01.exactQ d).discount + (Spec.C01.exactQ d).charge)| ≤
       (totalW d : ℚ) * halfUlp (d.c + 2) := by
-  obtain ⟨lines, hl, hpl, hsum, hdis, hch, hds, hcs, ht2, hrows⟩ := pre_ok d p h
+  obtain ⟨lines, hl, hpl, hsum, hdis, hch, hds, hcs, ht2, hrows⟩ := pre_unpack d p h
   rw [hd.rule] at hl hdis hch
   subst hpl
   rw [← hsum] at hdis hch
@@ -837,7 +840,7 @@ theorem addToRates_w (c E : ℕ) (cb : Combo) (t : Amount) (rts : List RateTotal
     · have hb : (newRate c cb).base = ⟨0, c⟩ := rfl
       rw [rateQ_new, hb, b1]
       have hz : (⟨0, c⟩ : Amount).toRat = 0 := by simp [Amount.toRat]
-      rw [hz]; ring
+      rw [hz]; simp
     · intro rt hrt
       simp only [List.mem_singleton] at hrt
       subst hrt
@@ -1648,7 +1651,7 @@ theorem working_tax (d : Doc) (p : Pre) (tx : TaxTotal) (hd : DocT ret d) (hpre 
       (twtW d (groupsOf tx.cats) : ℚ) * halfUlp (d.c + 2) := by
   have hA := hd.base
   have hinc := hd.inc
-  obtain ⟨_, _, _, _, _, _, hds, hcs, _, _⟩ := pre_ok d p hpre
+  obtain ⟨_, _, _, _, _, _, hds, hcs, _, _⟩ := pre_unpack d p hpre
   obtain ⟨hrel, hsum, hsexp, hS, hdis, hch, hrows, te, hb⟩ := pre_spec d p hA hpre
   obtain ⟨x1, x2⟩ := doc_tax_w d p tx hd hpre htx
   obtain ⟨f1, f2, f3, _, f5, f6, f7, f8, f9, f10⟩ := rawTotals_fields d p tx hinc
@@ -1949,5 +1952,6 @@ theorem payment_rows_shown (d : Doc) (out : Out) (t : Totals) (hd : DocC ret d) 
     have h2 : halfUlp (rawTotals exactOps d p tx).payable.exp ≤ halfUlp (d.c + 2) := by rw [hpe]; exact hh
     linarith
 
+end Err
 end Calc
 end GoblVerif
